@@ -296,6 +296,10 @@ func c07DirectedScens(name string) []c07DirectedScen {
 		er := d.Switch("@child.status", []M{pc, po}, po, nil, nil, "Sub")
 		parent := d.Flow("P", "messaging", d.Node("e", []any{d.Enter("enter", "R", false)}, er, d.Exit("e:c", ""), d.Exit("e:o", "")))
 		add(&gen.Scenario{Assets: d.BaseAssets(parent, bad), Trigger: d.Manual("P", nil)}, &c07Intent{winnerCase: -1})
+	case "pattern-case-twins":
+		out = directedPatternTwins()
+	case "environment-from-resume":
+		out = directedEnvironments()
 	case "expiration":
 		cs := []M{mkCase(0, M{"type": "has_text"}, cA)}
 		wr := d.Switch("@input.text", four, cO, cs, M{"type": "msg", "timeout": M{"seconds": 60, "category_uuid": cC["uuid"]}}, "Answer")
